@@ -58,6 +58,9 @@ def handle (args : List String) : String :=
       let a := average (0.0 : Float) gs
       s!"{fbits a.pka}|{fbits a.evol}|{fbits a.eloc}|{showDets a.sc}|{showDets a.bb}|{showDets a.cb}"
     | none => "bad-op"
+  | ["avgs", xs] => match (xs.splitOn ",").mapM ofBits? with
+    | some xs => fbits (avgScalar (0.0 : Float) xs)
+    | none => "bad-op"
   | ["rows", a, b, c] => match a.toNat?, b.toNat?, c.toNat? with
     | some a, some b, some c =>
       let r := rowsOf (List.range a) (List.range b) (List.range c)
